@@ -131,3 +131,61 @@ def take_and_clear(ck, rule: str, methods, attr: str) -> Dict[str, list]:
                 ok = all(("@cleared", True) in cleared[m.id] for m in nodes)
                 ck.ob(rule, fi, st, ok, "the taken %s is used only after %s = None (no second invocation possible)" % (attr, path))
     return takes
+
+
+def close_completes_reads(ck, rule: str) -> None:
+    """BaseIOStream.close(): a pending until-close read is finished and any other pending read is checked
+    against the buffered data before the fd is closed - on every path, whatever the reason of the close."""
+    from .rules import node_calls
+    from .x_guardflow import has
+
+    eff = ClassEffects(ck.repo, FAMILY)
+    fi = ck.func(IO, "BaseIOStream.close")
+    cfg = fi.cfg
+    gf = guard_facts(fi, eff)
+    fds = cfg.stmt_nodes(node_calls("self.close_fd"))
+    ck.floor(rule, len(fds), 1, "close_fd calls in close()")
+    # satisfiable pending reads are completed first
+    def tr2(n, val):
+        uc, rf, fin, srch = val
+        if n.kind == "stmt":
+            if any(q.is_call(c, "self._finish_read") for c in q.calls(n.ast)):
+                fin = True
+            if any(q.is_call(c, "self._find_read_pos") for c in q.calls(n.ast)):
+                srch = True
+        return (uc, rf, fin, srch)
+
+    def edge2(n, kind, val):
+        uc, rf, fin, srch = val
+        for t, pol in edge_facts(n, kind, gf):
+            if t == "self._read_until_close":
+                uc = pol
+            elif t == "self._read_future is None":
+                rf = not pol  # rf: a read is pending
+        return (uc, rf, fin, srch)
+
+    seen = explore(cfg, (None, None, False, False), tr2, lambda t: False, edge_transfer=edge2, follow_exc=False)
+    n_st = 0
+    for f in fds:
+        for _facts, (uc, rf, fin, srch) in sorted(seen.get(f.id, ()), key=repr):
+            n_st += 1
+            if uc is True:
+                ck.ob(rule, fi, f.ast, fin, "a pending read_until_close is completed with the buffered data before the fd is closed", construct="until-close read finished before close_fd: %s" % fin)
+            elif rf is True:
+                ck.ob(rule, fi, f.ast, srch, "a pending read is checked against the buffered data (_find_read_pos) before the fd is closed", construct="pending read searched before close_fd: %s" % srch)
+            elif uc is None or (uc is False and rf is None):
+                ck.ob(rule, fi, f.ast, False, "close() examines the until-close flag and the pending read before closing the fd", construct="close_fd reached without examining pending reads (until_close=%s pending=%s)" % (uc, rf))
+            else:
+                ck.ob(rule, fi, f.ast, True, "no read pending on this path")
+    ck.floor(rule, n_st, 1, "path states at close_fd")
+    kinds = [(uc, rf) for f in fds for _facts, (uc, rf, _a, _b) in seen.get(f.id, ())]
+    ck.ob(rule, fi, fi.node, any(uc is True for uc, _rf in kinds), "close() distinguishes a pending read_until_close", construct="close() tests _read_until_close")
+    ck.ob(rule, fi, fi.node, any(rf is True for _uc, rf in kinds), "close() distinguishes a pending (other) read", construct="close() tests _read_future")
+    # the until-close flag is consumed
+    for n in cfg.stmt_nodes(node_calls("self._finish_read")):
+        ck.ob(rule, fi, n.ast, has(gf[n.id], "self._read_until_close", False), "the until-close mode is cleared before its read is finished")
+    for n in cfg.stmt_nodes(node_calls("self._read_from_buffer")):
+        c = q.find_calls(n.ast, "self._read_from_buffer")[0]
+        v = q.dotted(c.args[0]) if c.args else None
+        ck.ob(rule, fi, n.ast, bool(v) and has(gf[n.id], "%s is None" % v, False), "only a found position completes the pending read at close")
+
